@@ -491,9 +491,9 @@ def conclude(pid, tier, seed, results, meta, t0):
             if c['status'] != 'SATISFIED':
                 if c['desc'] in h.expect_unsat_cover:
                     continue
-                tag = re.match(r'COVER\((\w+)\)', c['desc'])
-                if tag and ('_' + tag.group(1) + '_') not in h.name:
-                    continue    # witness of the other (compiled-out) variant of a split harness
+                tag = re.match(r'COVER\(([\w,]+)\)', c['desc'])
+                if tag and not all(('_' + t + '_') in (h.name + '_') for t in tag.group(1).split(',')):
+                    continue    # witness of another (compiled-out) variant of a split harness
                 inconclusive.append('%s: reachability witness not satisfied (%s): %s' % (h.name, c['status'], c['desc']))
         failed = [c for c in others if c['status'] not in ('SUCCESS', 'UNREACHABLE')]
         unwind_fail = [c for c in failed if c['status'] == 'FAILURE' and classify_check(c) == 'unwind']
